@@ -2,8 +2,8 @@
 The tie between the code and the model, as theorems.
 
 `Gen/PySrc.lean` is produced on every run by the translator `harness/py2lean.py` from the live
-Python source of the repository (13 decision functions: the tokenizer's character classes, the
-printer's parenthesisation predicates, the classifiers of six rules).  The theorems below say that
+Python source of the repository (17 decision functions: the tokenizer's character classes, the
+printer's parenthesisation predicates, the classifiers of eight of the nine rules).  The theorems below say that
 the hand-written model — the one every property theorem is about — computes exactly what the
 translated source computes, for all characters / trees / positions / options.  They are re-checked
 against the regenerated file on every run: if one of those Python functions changes its behaviour,
@@ -12,12 +12,14 @@ the check then searches for a concrete failing input.
 
 Trusted here: the translator (a syntax-directed map on a small Python fragment) and the run-time
 library `Model/PyRt.lean` (what `.left/.right/.parent`, `isinstance`, `get_sibling` mean on a
-well-formed tree).  Not covered by the translator: the mutating halves of the rules (`apply_to`),
-the classifiers of the three rules whose classifier calls into util.py / walks to the root
-(factor-out, variable-multiply, balanced-move), parser, evaluator, layout — those remain tied by the
+well-formed tree; `get_term_ex` / `factor_add_terms_ex` of util.py enter the translated classifiers of
+factor-out and variable-multiply as externals = the hand-written `getTermEx` / `factorAddTermsEx`).
+Not covered by the translator: the mutating halves of the rules (`apply_to`), the classifier of
+balanced move (it walks to the root), util.py, parser, evaluator, layout — those remain tied by the
 differential correspondence only.
 -/
 import Mathy.Proofs.PySrcAgreeCAAll
+import Mathy.Proofs.PySrcAgreeDFAll
 import Mathy.Props.C06
 namespace Mathy
 open Mathy.Py Mathy.Gen.Src Mathy.SrcAgree
@@ -30,11 +32,11 @@ def srcCanApply : Rule → Option (Ref → Bool)
   | .distribute => some DistributiveMultiplyRule_can_apply_to
   | .inverse => some fun r => (MultiplicativeInverseRule_get_type r).isSome
   | .restate => some fun r => (RestateSubtractionRule_get_type r).isSome
-  | .factorOut _ => none
-  | .variableMultiply => none
+  | .factorOut c => some (DistributiveFactorOutRule_can_apply_to c)
+  | .variableMultiply => some VariableMultiplyRule_can_apply_to
   | .balancedMove => none
 
-/-- **Source tie, classifiers.** For the six translated rules (all options), at every position of
+/-- **Source tie, classifiers.** For the eight translated rules (all options; every rule but balanced move), at every position of
 every tree, the model's `canApply` is the Python `can_apply_to` as translated from the live
 source. -/
 theorem Src_canApply (r : Rule) (f : Ref → Bool) (h : srcCanApply r = some f) (k : Ctx) (n : Ex) :
@@ -50,8 +52,8 @@ theorem Src_canApply (r : Rule) (f : Ref → Bool) (h : srcCanApply r = some f) 
     show (RestateSubtractionRule_get_type (some ⟨k, n⟩)).isSome = rsCan k n
     rw [restate_type_agree]
     simp [rsCan, rsType]
-  | factorOut c => cases h
-  | variableMultiply => cases h
+  | factorOut c => cases h; exact df_can_agree c k n
+  | variableMultiply => cases h; exact vm_can_agree k n
   | balancedMove => cases h
 
 /-- **Source tie, node search (C06).** `find_nodes` of the model lists exactly the in-order
@@ -70,8 +72,10 @@ the model's arrangements. -/
 theorem Src_arrangements (k : Ctx) (n : Ex) :
     (ConstantsSimplifyRule_get_type (some ⟨k, n⟩)).map (·.1) = (caType n).map CAType.pyName ∧
     RestateSubtractionRule_get_type (some ⟨k, n⟩) = (rsType k n).map RSType.pyName ∧
-    MultiplicativeInverseRule_get_type (some ⟨k, n⟩) = miPyType n :=
-  ⟨constants_type_agree k n, restate_type_agree k n, inverse_type_agree k n⟩
+    MultiplicativeInverseRule_get_type (some ⟨k, n⟩) = miPyType n ∧
+    (DistributiveFactorOutRule_get_type (some ⟨k, n⟩)).map (·.1) = (dfType n).map DFType.pyName ∧
+    (VariableMultiplyRule_get_type (some ⟨k, n⟩)).map (·.1) = (vmType n).map VMType.pyName :=
+  ⟨constants_type_agree k n, restate_type_agree k n, inverse_type_agree k n, df_type_agree k n, vm_type_agree k n⟩
 
 /-! non-vacuity: the translated classifier accepts `2 + (3 + x)` at the root (chained right) -/
 example : (ConstantsSimplifyRule_get_type
